@@ -165,6 +165,9 @@ def recognise_cursor_merge(fi: FuncInfo, rule: str) -> Tuple[Optional[MergeRoles
         conj = _flatten_and(node)
         if len(conj) != 2:
             return None
+        if isinstance(conj[0], ast.BoolOp) and isinstance(conj[0].op, ast.Or) and not (
+                isinstance(conj[1], ast.BoolOp) and isinstance(conj[1].op, ast.Or)):
+            conj = [conj[1], conj[0]]       # the two conjuncts in either order
         first = C.canon_cond(conj[0], env)
         second_nodes = _flatten_or(conj[1])
         if len(second_nodes) != 2:
